@@ -15,8 +15,23 @@ import (
 	"github.com/skx/evalfilter/v2/object"
 )
 
+// maxCompileDepth is the deepest tree the compiler will walk.
+//
+// The parser limits how deeply expressions may be nested, but a long
+// chain of operators ("1 + 1 + 1 + ..") still produces a tree which is as
+// deep as the chain is long.  The compiler recurses once per level, so
+// without a limit a large enough script would exhaust the (golang) stack,
+// which cannot be recovered from and terminates the host application.
+const maxCompileDepth = 10000
+
 // compile is core-code for converting the AST into a series of bytecodes.
 func (e *Eval) compile(node ast.Node) error {
+
+	e.depth++
+	defer func() { e.depth-- }()
+	if e.depth > maxCompileDepth {
+		return fmt.Errorf("the program is nested more than %d levels deep", maxCompileDepth)
+	}
 
 	switch node := node.(type) {
 
@@ -306,7 +321,7 @@ func (e *Eval) compile(node ast.Node) error {
 		// Output the body
 		err = e.compile(node.Body)
 		if err != nil {
-			return nil
+			return err
 		}
 
 		// repeat
